@@ -17,7 +17,7 @@ RULE = ("histograms (1D incl. gapped, 2-3D; int16..float64 contents; with under/
         "by the per-call monitor (contents, missed x c, errors2 x c*c, bins / operand untouched, statistics invariant), plus identities "
         "c*h == h*c, (h*c)/c == h, normalize() total 1 / 100 with unchanged proportions, partial_normalize row/column sums 1, "
         "normalize_bins shares summing to 1; h*h, h/h, c/h, negative factors and array operands must be refused; "
-        "partial_normalize by axis index and name, copying and in place (same result); refusals also after leaving a free-arithmetics block normally or by an exception; non-trivial = histogram with >= 2 non-empty bins and missed weight or custom errors, factor not 1; distinct by hash of (histogram, factor chain) Plus `far_scale_case`: factors of 1e150 / 1e-150 (mean(), variance(), std() against exact moments) and in-place scaling of a histogram that holds a negative bin (all or nothing).")
+        "partial_normalize by axis index and name, copying and in place (same result); refusals also after leaving a free-arithmetics block normally or by an exception; non-trivial = histogram with >= 2 non-empty bins and missed weight or custom errors, factor not 1; distinct by hash of (histogram, factor chain) Plus `far_scale_case`: factors of 1e150 / 1e-150 (mean(), variance(), std() against exact moments) and in-place scaling of a histogram that holds a negative bin (all or nothing). `big_int_factor_case`: integer factors whose square times the squared errors leaves int64 (values demanded, in whichever type); unsigned numpy integer factors.")
 ASSUMPTIONS = [
     "a product / quotient is one IEEE operation per element in the result dtype: compared within 4 eps of that dtype (exact for integers)",
     "zero and non-finite factors are outside the statement",
